@@ -220,6 +220,19 @@ def store_probe(us):
     q('rule_probe_1', lambda: str(us.get_conversion_factor(amp, amp / metre ** 2)))
     q('rule_probe_2', lambda: str(us.convert(us.Quantity(3.0, amp * 1e-6), amp / metre ** 2).magnitude))
     q('rule_probe_3', lambda: str(us.get_conversion_factor(volt, amp)))
+    q('rule_probe_4', lambda: str(us.get_conversion_factor(us.get_unit('mole'), us.get_unit('gram'))))
+    return out
+
+
+def _differs(now, before, shared):
+    """keys whose answer changed; with a deliberately shared registry a conversion that was impossible may become possible
+    (a rule registered by a sharing store is visible by design), but one that worked must keep working with the same value"""
+    out = []
+    for k in now:
+        if now[k] != before.get(k):
+            if shared and k.startswith('rule_probe') and str(before.get(k)).startswith('raises'):
+                continue
+            out.append(k)
     return out
 
 
@@ -234,7 +247,14 @@ def gen_model_case(seed, big):
     if rng.random() < 0.4:
         files[1] = files[0]       # structurally identical equations in two models (cached singularity analysis)
     # half of the cases hand every model one caller-owned unit store (models then share its registry, not its names)
-    return {'seed': seed, 'files': files, 'ops': model_ops(rng, rng.randint(6, 12)), 'caller_store': rng.random() < 0.5}
+    ops = model_ops(rng, rng.randint(6, 12))
+    caller = rng.random() < 0.5
+    if rng.random() < 0.4:
+        # a rule in one model, later the same rule registered twice in another
+        i = rng.randrange(len(ops))
+        ops.insert(i, ['rule', 0, 2 * rng.randrange(400)])
+        ops.insert(rng.randint(i + 1, len(ops)), ['rule', 1, 2 * rng.randrange(400) + 1])
+    return {'seed': seed, 'files': files, 'ops': ops, 'caller_store': caller}
 
 
 def apply_model_op(models, op, rng_seed, caller=None):
@@ -288,13 +308,20 @@ def apply_model_op(models, op, rng_seed, caller=None):
         elif kind == 'rule':
             us = m.units
             # conversion rules live in the pint registry and are keyed by dimensionality: with a deliberately shared
-            # registry they are shared by design (and rules are not among the operations the property lists), so they are
-            # only registered when every model has its own registry
-            if caller is None and not us.is_defined('rule_a'):
-                us.add_unit('rule_a', 'ampere * 1e-6')
-                us.add_unit('rule_b', 'ampere / metre ** 2')
-                k = us.Quantity(2.0, us.get_unit('metre') ** 2)
-                us.add_conversion_rule(us.get_unit('rule_a'), us.get_unit('rule_b'), lambda ureg, rhs: rhs / k)
+            # registry a rule becomes visible to the sharing stores by design, so there every model registers rules between
+            # its OWN pair of dimensions; what must never happen is that a rule somebody registered stops working
+            pair = (idx if caller is not None else idx + salt) % 3
+            a, b = 'rule_a%d' % pair, 'rule_b%d' % pair
+            if not us.is_defined(a):
+                us.add_unit(a, ['ampere * 1e-6', 'volt * 1e-3', 'mole * 1e-3'][pair])
+                us.add_unit(b, ['ampere / metre ** 2', 'ampere * 1e-9', 'gram'][pair])
+            den = [us.get_unit('metre') ** 2, us.get_unit('volt') / us.get_unit('ampere'), us.get_unit('mole') / us.get_unit('gram')][pair]
+            k = us.Quantity(2.0, den)
+            us.add_conversion_rule(us.get_unit(a), us.get_unit(b), lambda ureg, rhs: rhs / k)
+            if salt % 2:
+                # the same rule registered again (e.g. to correct a constant): same value, so nothing observable changes
+                k2 = us.Quantity(2.0, den)
+                us.add_conversion_rule(us.get_unit(a), us.get_unit(b), lambda ureg, rhs: rhs / k2)
         elif kind == 'print':
             from cellmlmanip.printer import Printer
             Printer().doprint(m.equations[0]) if m.equations else None
@@ -334,8 +361,8 @@ def model_work(case):
         hist.append(res)
         if caller is not None:
             now = store_probe(caller)
-            if now != caller_snap:
-                diff = [k for k in now if now[k] != caller_snap.get(k)]
+            if _differs(now, caller_snap, True):
+                diff = _differs(now, caller_snap, True)
                 bad.append(('operation %r on model %d changed the caller\'s unit store S (the models were loaded with '
                             'unit_store=S): %s (was %r, now %r)' % (res, idx, ', '.join(diff), str(caller_snap[diff[0]])[:200],
                                                                     str(now[diff[0]])[:200]), {'op_index': j, 'changed': diff}))
@@ -345,8 +372,8 @@ def model_work(case):
                 snaps[t] = snapshot(models[t])
                 continue
             now = snapshot(models[t])
-            if now != snaps[t]:
-                diff = [k for k in now if now[k] != snaps[t].get(k)]
+            if _differs(now, snaps[t], caller is not None):
+                diff = _differs(now, snaps[t], caller is not None)
                 bad.append(('operation %r on model %d (%s) changed model %d (%s): %s (was %r, now %r)'
                             % (res, idx, case['files'][idx], t, case['files'][t], ', '.join(diff),
                                str(snaps[t].get(diff[0]))[:200], str(now[diff[0]])[:200]), {'op_index': j, 'changed': diff}))
@@ -397,6 +424,14 @@ def run(ctx):
         for what, detail in bad:
             ctx.violation(what, {'model_case': case, 'detail': detail})
     ctx.sample({'model_case': mcases[0]})
+    # (c) models built through the API (separate registries), singularities repaired one after another in one process:
+    # a number in model B's equations that belongs to model A's registry is work on A changing what B gets
+    from props import c18
+    seeds = [ctx.seed * 1000 + i for i in range(12 if ctx.tier == 'quick' else 200)]
+    for sd, bad in zip(seeds, vlib.pmap(c18.run_api_singular, seeds)):
+        ctx.count(case_key=('api_singular', sd), nontrivial=True, kind='api_singular')
+        for what, detail in bad:
+            ctx.violation('models repaired one after another in one process: ' + what, {'api_singular_seed': sd, 'detail': detail})
 
 
 def load_corpus(kind):
@@ -407,6 +442,10 @@ def load_corpus(kind):
 
 
 def replay(ctx, case):
+    if 'api_singular_seed' in case:
+        from props import c18
+        bad = c18.run_api_singular(case['api_singular_seed'])
+        return bad[0][0] if bad else None
     if 'model_case' in case:
         bad, _ = model_work(case['model_case'])
         return bad[0][0] if bad else None
